@@ -18,7 +18,9 @@ def writeChunksL : GoVal → Res Cause (List Bytes)
   | .nil => .ok []
   | .slice _ xs => writeChunksList xs
   | .array _ xs => writeChunksList xs
-  | .mapSlice kvs => sprintItems kvs            -- a slice of MapItem structs, one write each
+  | .mapSlice kvs => sprintItems (resolveDropsVals kvs)            -- a slice of MapItem structs, one write each
+  | .drop v => writeChunksL v                   -- not reached from `stdChunks`: `ToLiquid` leaves no drop
+  | .ptr (.drop v) => writeChunksL v
   | v => (writeObjectL v).bind fun b => .ok [b]
 def writeChunksList : List GoVal → Res Cause (List Bytes)
   | [] => .ok []
